@@ -150,7 +150,7 @@ ACC_FILES["req"] = ACC_FILES["svc"]
 
 def _acc_object(kind, tag):
     """-> (object, the caller's list handed to the constructor or None)"""
-    if kind in ("bst", "bun", "bdel"):
+    if kind in ("bst", "bun", "bdel", "gst", "tst"):
         import pydsdl
         from pathlib import Path
         u8 = pydsdl.UnsignedIntegerType(8, pydsdl.PrimitiveType.CastMode.SATURATED)
@@ -159,11 +159,12 @@ def _acc_object(kind, tag):
         if kind != "bun":
             arg.insert(1, pydsdl.PaddingField(pydsdl.VoidType(8)))
         cls = pydsdl.UnionType if kind == "bun" else pydsdl.StructureType
-        t = cls(name="ns.sub.T", version=pydsdl.Version(1, 0), attributes=arg, deprecated=False, fixed_port_id=None,
+        form = arg if kind not in ("gst", "tst") or tag != "c18a" else (x for x in arg) if kind == "gst" else tuple(arg)
+        t = cls(name="ns.sub.T", version=pydsdl.Version(1, 0), attributes=form, deprecated=False, fixed_port_id=None,
                 source_file_path=Path("/nonexistent/ns/sub/T.1.0.dsdl"), has_parent_service=False, doc="doc")
         if kind == "bdel":
             t = pydsdl.DelimitedType(t, 64)
-        return t, arg
+        return t, (arg if kind in ("bst", "bun", "bdel") else None)
     with dsdlio.Tree(ACC_FILES[kind], tag) as tr:
         status, res, _ = dsdlio.read_ns(tr.path("ns"))
     t = res[0]
